@@ -11,7 +11,7 @@ PROP = 'C09'
 THEOREMS = ['C09_primitive_table', 'C09_reflexive', 'C09_mutual_symmetric', 'C09_reader_field_added_with_default',
             'C09_reader_field_removed', 'C09_reader_union_branch_added', 'C09_full_sound_fragment', 'C09_fragment_example', 'C09_full_unsound_refuted', 'C09_alias_unsound_refuted',
             'C09_examples']
-RULE = ('(W, R) pairs from the evolution generator of C08 and all ordered pairs of a 40-schema enumeration, x values of W; '
+RULE = ('(W, R) pairs from the evolution generator of C08 and all ordered pairs of a 46-schema enumeration, x values of W; '
         'non-trivial = distinct (W, R, value) with R != W, verdict Full and a successful read')
 
 SAFE = ('identity', 'promote-int-long', 'promote-int-float', 'promote-int-double', 'promote-long-float', 'promote-long-double',
@@ -54,6 +54,10 @@ ENUM = [
     ('[{"type":"enum","name":"E","symbols":["A","B","C"]},"string"]', ['(union 0 (enum 2 #43))', '(union 1 (string #78))']),
     ('[{"type":"array","items":"long"},{"type":"map","values":"int"}]', ['(union 0 (array (long 1099511627776)))', '(union 1 (map (kv #6b (int 1))))']),
     ('[{"type":"array","items":"int"},{"type":"map","values":"int"}]', ['(union 0 (array (int 7)))']),
+    # reader unions holding exactly one numeric type: every promotion into a union branch is exercised alone
+    ('["null","float"]', ['(union 1 (float 1069547520))']), ('["null","double"]', ['(union 1 (double 4609434218613702656))']),
+    ('["float","string"]', ['(union 0 (float 0))']), ('["boolean","double"]', ['(union 1 (double 0))']),
+    ('["null","bytes"]', ['(union 1 (bytes #6869))']), ('["null","string"]', ['(union 1 (string #6869))']),
 ]
 
 def gen(tier, seed):
